@@ -64,7 +64,7 @@ def _closure0(prog, key):
     return k if k in prog.fns else None
 
 
-def _must_on_paths(ctx, rule, fn_key, ev, what, assume=None, before_ret=None, instance=None):
+def _must_on_paths(ctx, rule, fn_key, ev, what, assume=None, before_ret=None, instance=None, cond_ret=False):
     """`ev` occurs on every normal path of fn_key (optionally: before every `_0 = <before_ret>` assignment of
     the closure that computes the result)."""
     prog = ctx.prog
@@ -92,11 +92,31 @@ def _must_on_paths(ctx, rule, fn_key, ev, what, assume=None, before_ret=None, in
         return
     body = prog.fns[ck].body
     blocks = blocks_assigning_ret(body, before_ret)
-    if not blocks:
+    # `_0 = <cond>` (e.g. `let last = cnt == 0; if last { acquire }; last`): a successful return iff <cond>; judged with the
+    # edges contradicting <cond> pruned
+    cond_blocks = []
+    if cond_ret:
+        cond_blocks = blocks_assigning_ret(body, lambda e: strip(e)[0] in ("binop", "call", "unop", "field", "discr"))
+    if not blocks and not cond_blocks:
         ctx.missing(rule, ck, "no success-return assignment found in %s" % ck)
         return
     IN, OUT = ea.block_out(ci[0])
     bad = [b for b in blocks if IN.get(b) is not TOP and ev not in (IN.get(b) or ())]
+    for cb in cond_blocks:
+        for st in body.blocks[cb]["stmts"]:
+            if st["k"] == "=" and st["lhs"]["l"] == 0 and not st["lhs"]["p"]:
+                ce = body.expr_of_rvalue(st["rv"])
+                pol = True
+                while ce[0] == "unop" and ce[1] == "Not":
+                    ce = ce[2]
+                    pol = not pol
+                want = canon(ce)
+                extra = assume_expr(lambda x, want=want, pol=pol: (pol if canon(x) == want else None))
+                ea2 = EventAnalysis(prog, sync_matcher, assume=assume_all(assume, extra)).solve([root])
+                IN2, _ = ea2.block_out(ci[0])
+                if IN2.get(cb) is not TOP and ev not in (IN2.get(cb) or ()):
+                    bad.append(cb)
+    blocks = blocks + cond_blocks
     if bad:
         ctx.bad(rule, fn_key, "missing happens-before edge: a successful return of %s is not preceded by %s" % (fn_key, what),
                 site_str(prog, ck, bad[0]), detail=what)
@@ -112,13 +132,13 @@ def Y1(ctx, rows=None):
     table = {
         "mutex": [
             ("rt::mutex::Mutex::release_lock", "rel", "release store (>= Release)", dict(assume=assume_calls({"rt::thread::Set::is_active": True}))),
-            ("rt::mutex::Mutex::post_acquire", "acq", "acquire load (>= Acquire)", dict(before_ret=true_ret)),
+            ("rt::mutex::Mutex::post_acquire", "acq", "acquire load (>= Acquire)", dict(before_ret=true_ret, cond_ret=True)),
         ],
         "rwlock": [
             ("rt::rwlock::RwLock::release_read_lock", "rel", "release store (>= Release)", dict(assume=assume_calls({"rt::thread::Set::is_active": True}))),
             ("rt::rwlock::RwLock::release_write_lock", "rel", "release store (>= Release)", dict(assume=assume_calls({"rt::thread::Set::is_active": True}))),
-            ("rt::rwlock::RwLock::post_acquire_read_lock", "acq", "acquire load (>= Acquire)", dict(before_ret=true_ret)),
-            ("rt::rwlock::RwLock::post_acquire_write_lock", "acq", "acquire load (>= Acquire)", dict(before_ret=true_ret)),
+            ("rt::rwlock::RwLock::post_acquire_read_lock", "acq", "acquire load (>= Acquire)", dict(before_ret=true_ret, cond_ret=True)),
+            ("rt::rwlock::RwLock::post_acquire_write_lock", "acq", "acquire load (>= Acquire)", dict(before_ret=true_ret, cond_ret=True)),
         ],
         "notify": [
             ("rt::notify::Notify::notify", "rel", "release store (>= Release)", {}),
@@ -131,7 +151,7 @@ def Y1(ctx, rows=None):
         ],
         "arc": [
             ("rt::arc::Arc::ref_dec", "rel", "release store (>= Release)", {}),
-            ("rt::arc::Arc::ref_dec", "acq", "acquire load (>= Acquire)", dict(before_ret=true_ret)),
+            ("rt::arc::Arc::ref_dec", "acq", "acquire load (>= Acquire)", dict(before_ret=true_ret, cond_ret=True)),
             ("rt::arc::Arc::get_mut", "acq", "acquire load (>= Acquire)", {}),
             ("rt::arc::Arc::strong_count", "acq_sc", "SeqCst load", {}),
         ],
@@ -411,6 +431,10 @@ def Y2(ctx):
             else:
                 ctx.bad("Y2", fk, "Thread constructed outside Thread::new", site_str(prog, w["fn"], w["bb"]))
             continue
+        if w["kind"] == "assign" and is_reinit_write(prog, w, T, "causality", T + "::new"):
+            ctx.ok("Y2", fk, "clock re-initialised between iterations (constructor value)", [site_str(prog, w["fn"], w["bb"])])
+            n += 1
+            continue
         if w["kind"] == "assign":
             ctx.bad("Y2", fk, "direct assignment into a thread's causality clock: an unlisted happens-before edge "
                     "(over-synchronisation hides races and weak outcomes)", site_str(prog, w["fn"], w["bb"]), detail="assign")
@@ -444,7 +468,8 @@ def Y2(ctx):
     for w in prog.writers().get((T, "released"), []):
         fk = enclosing_fn(w["fn"])
         nrel += 1
-        if (w["kind"] == "construct" and fk == "rt::thread::Thread::new") or (w["kind"] == "assign" and fk == "rt::atomic::fence_rel"):
+        if (w["kind"] == "construct" and fk == "rt::thread::Thread::new") or (w["kind"] == "assign" and fk == "rt::atomic::fence_rel") or \
+                is_reinit_write(prog, w, T, "released", T + "::new"):
             ctx.ok("Y2", fk + ":released", "release-fence view written by %s" % fk.split("::")[-1], [site_str(prog, w["fn"], w["bb"])])
         else:
             ctx.bad("Y2", fk, "the release-fence view `Thread.released` is modified by %s (%s): stores of this thread then publish causality no "
@@ -633,34 +658,47 @@ def O4(ctx):
             ctx.bad("O4", fk, "is_seen_by_current used outside coherence / candidate selection",
                     site_str(prog, s["fn"], s["bb"]))
     ctx.floor("O4", n, 3, "store, apply_load_coherence, match_load_to_stores")
-    # fence_acq must select by a predicate on FirstSeen and synchronise with Acquire
+    # fence_acq must select by a thread-local predicate on the store's FirstSeen record and synchronise with Acquire.
+    # Decided on the guard of the synchronisation site, whether the predicate is a helper or written in place.
     fn = need_fn(ctx, "O4", "rt::atomic::fence_acq")
     if fn is not None:
         inst = prog.ident(fn.key)
-        sel = [prog.callee_key(c) for (b, t, c) in prog.sites(inst) if prog.callee_key(c).startswith("rt::atomic::FirstSeen::")]
-        if not sel:
-            ctx.bad("O4", "rt::atomic::fence_acq", "acquire fence no longer restricts itself to stores the thread has read",
-                    fn.loc(), detail="unfiltered")
-        for k in set(sel):
-            if k == target:
+        body = fn.body
+        syncs = [(b, t) for (b, t, c) in prog.sites(inst) if prog.callee_key(c).startswith("rt::synchronize::Synchronize::")
+                 or (prog.callee_key(c) == VV + "::join" and mentions_field(arg_expr(body, t, 0), T, "causality"))]
+        if not syncs:
+            ctx.missing("O4", "rt::atomic::fence_acq", "no synchronisation site in the acquire fence")
+        for (b, t) in syncs:
+            atoms = [(e, pol) for (e, pol, v, sb) in guard_atoms(body, b) if mentions_field(e, "rt::atomic::Store", "first_seen") is not None]
+            if not atoms:
+                ctx.bad("O4", "rt::atomic::fence_acq", "acquire fence no longer restricts itself to stores the thread has read",
+                        site_str(prog, fn.key, b), detail="unfiltered")
                 continue
-            # the predicate must be thread-local: it may not consult the thread's causality clock
-            root = prog.ident(k)
-            reach = prog.reach([root]) if root is not None else {}
-            closed = [prog.insts[i].key for i in reach if prog.insts[i].key in ("rt::vv::VersionVec::versions", target)]
-            reads_clock = False
-            for i in reach:
-                body = prog.body_of(i)
-                for blk in body.blocks:
-                    for st in blk["stmts"]:
-                        if st["k"] == "=" and any(pl and mentions_field(body.expr_of_place(pl), T, "causality") for pl in
-                                                  ([st["rv"].get("place")] if st["rv"].get("place") else [])):
-                            reads_clock = True
-            if closed or reads_clock:
-                ctx.bad("O4", "rt::atomic::fence_acq", "the store filter %s of the acquire fence consults the thread's causality clock "
-                        "(not thread-local): it also selects stores read by other threads" % k, fn.loc(), detail="closed-predicate")
+            closed = []
+            for (e, pol) in atoms:
+                if mentions_field(e, T, "causality") is not None:
+                    closed.append("reads Thread.causality")
+                for ce in calls_in(e):
+                    k = ce[1]
+                    if k in (target, "rt::vv::VersionVec::versions"):
+                        closed.append(k)
+                    root = prog.ident(k) if k.startswith("rt::atomic::FirstSeen::") else None
+                    if root is None:
+                        continue
+                    for i2 in prog.reach([root]):
+                        if prog.insts[i2].key in ("rt::vv::VersionVec::versions", target):
+                            closed.append(prog.insts[i2].key)
+                        b2 = prog.body_of(i2)
+                        for blk in b2.blocks:
+                            for st in blk["stmts"]:
+                                if st["k"] == "=" and st["rv"].get("place") and mentions_field(b2.expr_of_place(st["rv"]["place"]), T, "causality"):
+                                    closed.append("%s reads Thread.causality" % prog.insts[i2].key)
+            if closed:
+                ctx.bad("O4", "rt::atomic::fence_acq", "the store filter of the acquire fence consults the thread's causality clock (%s): "
+                        "not thread-local, it also selects stores read by other threads" % sorted(set(closed))[0], site_str(prog, fn.key, b),
+                        detail="closed-predicate")
             else:
-                ctx.ok("O4", "rt::atomic::fence_acq", "selects stores by the thread-local predicate %s" % k.split("::")[-1], [prog.fns[k].loc()])
+                ctx.ok("O4", "rt::atomic::fence_acq", "selects stores by a thread-local test of Store.first_seen", [site_str(prog, fn.key, b)])
 
 
 def run_all(ctx, which):
